@@ -15,7 +15,7 @@ def run(tier, seed, replay=None):
     ck = vlib.Check("C16", tier, seed, "model_checking")
     binary = vlib.build_harness()
     # 1. fine-grained model: every lock / unlock / channel step, without and with the pubsub watcher
-    base = dict(Threads="{1,2}", MaxCalls=2, FIXED=True, UNLOCK='"code"', Watcher=False, MaxMsgs=0, MaxRestarts=0, Resend=False, Cancels=False, Reentrant=False, ALLOWPOS='"before"')
+    base = dict(Threads="{1,2}", MaxCalls=2, FIXED=True, UNLOCK='"code"', Watcher=False, MaxMsgs=0, MaxRestarts=0, Resend=False, Cancels=False, Reentrant=False, ALLOWPOS='"before"', CANCELWATCH='"before"')
     locks = {"2 threads x 2 calls": base,
              "3 threads x 1 call": dict(base, Threads="{1,2,3}", MaxCalls=1),
              "watcher, 2 threads x 2 calls, 1 message": dict(base, Watcher=True, MaxMsgs=1),
@@ -52,7 +52,9 @@ def run(tier, seed, replay=None):
                           ("Close with a deferred Unlock (mutex held while waiting for the watcher) must violate Termination",
                            dict(base, Watcher=True, MaxMsgs=1, UNLOCK='"deferred"', Threads="{1}", MaxCalls=1), "Termination"),
                           ("the allow-peer callback consulted under the mutex (ALLOWPOS = under) must violate Termination when the callback calls UncacheCid",
-                           dict(base, Reentrant=True, ALLOWPOS='"under"', Threads="{1,2}", MaxCalls=1), "Termination")):
+                           dict(base, Reentrant=True, ALLOWPOS='"under"', Threads="{1,2}", MaxCalls=1), "Termination"),
+                          ("Close that cancels the watcher's context only when it returns (CANCELWATCH = deferred) must violate Termination once the application has shut its pubsub down",
+                           dict(base, Watcher=True, MaxMsgs=1, CANCELWATCH='"deferred"', Threads="{1}", MaxCalls=1), "Termination")):
         v = vlib.tlc("ReceiverLocks", ("rlp.cfg", vlib.cfg_text(c, ["MutexReleased"], properties=["Termination"])), workers=4, timeout=900, tag="c16p")
         ck.cov["tlc_runs"].append({"name": name, "violated": v.violated})
         if v.violated != want:
@@ -83,7 +85,7 @@ def run(tier, seed, replay=None):
             raise vlib.Infra("no trace recorded for configuration " + conf)
         trace = os.path.join(wd, "all.ndjson")
         open(trace, "w").write("\n".join(lines) + "\n")
-        c = dict(Threads=threads, MaxCalls=1, FIXED=True, UNLOCK='"code"', Watcher=watcher, MaxMsgs=100000, MaxRestarts=0, Resend=resend, Cancels=True, Reentrant=True, ALLOWPOS='"before"')
+        c = dict(Threads=threads, MaxCalls=1, FIXED=True, UNLOCK='"code"', Watcher=watcher, MaxMsgs=100000, MaxRestarts=0, Resend=resend, Cancels=True, Reentrant=True, ALLOWPOS='"before"', CANCELWATCH='"before"')
         r = vlib.tlc("ReceiverLocksTrace", ("t.cfg", vlib.cfg_text(c, ["MutexReleased", "ResultsOK"], spec="TSpec", postcondition="Accepted")), workers=1, timeout=3000,
                      env_extra={"VERIF_TRACE": trace}, tag="rlt" + conf, heap="8g")
         ck.cov["tlc_runs"].append({"name": "trace validation " + conf, "events": len(lines), "accepted": r.ok, "wall_s": round(r.wall, 1)})
